@@ -25,6 +25,7 @@ Apply(st, e) ==
       [] e.op = "Derive"    -> DoAlloc(st, e.rd, DeriveT(TT(st, e.r), e.c, e.f))
       [] e.op = "Do"        -> DoAlloc(st, e.rd, DoT(TT(st, e.r), e.cs))
       [] e.op = "Rename"    -> DoAlloc(st, e.rd, RenameT(TT(st, e.r), e.c, e.c2))
+      [] e.op = "Swap"      -> DoAlloc(st, e.rd, SwapT(TT(st, e.r), e.c, e.c2))
       [] e.op = "Concat"    -> DoAlloc(st, e.rd, ConcatT(TT(st, e.ra), TT(st, e.rb)))
       [] e.op = "AddRecord" -> DoAlloc(st, e.rd, ConcatT(TT(st, e.r), RecordT(e.rec)))
       [] e.op \in {"Copy", "NoFilter"} -> DoAlloc(st, e.rd, Ok(TT(st, e.r)))
